@@ -1,5 +1,5 @@
 (* Proof/Fun2CoreTyRefute.v (C12)
-   (1) REGRESSION, former finding main-non-integer-result (fixed in /repo by <commit12>): `data Bar { B }
+   (1) REGRESSION, former finding main-non-integer-result (fixed in /repo by 5b8c76f): `data Bar { B }
        def main(): Bar { B }` was ACCEPTED by the checker that never looked at the return type of main
        ([Check.old_check_main]); it has no capture risk and no call of main, and its translation is an ILL-TYPED Core
        program: compile_main types the operand of the final `exit` with the declared return type.  The checker now
